@@ -377,22 +377,6 @@ func (x *Exec) callContractSig(st *State, con *Contract, ms *methodStub, recv *T
 	for k, v := range st.fullMod {
 		preMod[k] = v
 	}
-	if con.Logged {
-		kind := evMeth
-		sarg := mk("Str", "sempty")
-		switch ms.name {
-		case "Set":
-			kind = evSet
-			if len(argT) > 0 && argT[0].Sort == "Str" {
-				sarg = argT[0]
-			}
-		case "Clear":
-			kind = evClear
-		default:
-			sarg = x.reg.StrLit(ms.name)
-		}
-		x.emit(st, kind, App("Int", "ival", recv), App("Int", "itag", recv), sarg)
-	}
 	for _, r := range con.Requires {
 		g := ctx.boolExpr(r.E, true)
 		n := len(x.obls)
@@ -473,11 +457,36 @@ func (x *Exec) callContractSig(st *State, con *Contract, ms *methodStub, recv *T
 		results = append(results, r)
 		rvals = append(rvals, r)
 	}
+	logEvent := func(s *State, okT *Term) {
+		if !con.Logged {
+			return
+		}
+		kind := evMeth
+		sarg := mk("Str", "sempty")
+		switch ms.name {
+		case "Set":
+			kind = evSet
+			if len(argT) > 0 && argT[0].Sort == "Str" {
+				sarg = argT[0]
+			}
+		case "Clear":
+			kind = evClear
+		default:
+			sarg = x.reg.StrLit(ms.name)
+		}
+		x.emit(s, kind, App("Int", "ival", recv), okT, sarg)
+	}
+	okT := IntLit(1)
+	if ms.name == "Set" && len(results) == 1 && results[0].Sort == "Iface" {
+		okT = Ite(Eq(results[0], mk("Iface", "inil")), IntLit(1), IntLit(0))
+	}
+	logEvent(st, okT)
 	post(st, con.Ensures, results, nil)
 	outs := []Outcome{{st: st, results: rvals}}
 	if stP != nil {
 		pv := stP.Fresh("panicval", "Iface")
 		stP.Assume(Not(Eq(App("Int", "itag", pv), IntLit(0))))
+		logEvent(stP, IntLit(-1))
 		post(stP, con.Panics, nil, pv)
 		stP.panicking = pv
 		outs = append(outs, Outcome{st: stP, panicked: true})
